@@ -327,3 +327,51 @@ class ComputeDyadicScales(Contract):
             seq = ["D" if t.endswith("compute_dyadic_downscaling") else "C" for (t, b) in calls]
             out.append(("sharded-accessor-closed-after-every-level", seq == ["D", "C"] * (n - 1)))
         return out
+
+
+@register
+class ComputeDyadicDownscalingUnsupportedFactor(Contract):
+    """a pair of scales whose size ratio is neither 1 nor 2 (rounded up) along ONE axis -- whatever the other
+    axes look like -- is refused with ValueError before anything is read or written"""
+    target = DP + "compute_dyadic_downscaling"
+    name = "compute_dyadic_downscaling[unsupported factor on one axis]"
+    props = ("C06",)
+    use_at_call_sites = False
+    configs = tuple((bad, other) for bad in range(3) for other in (1, 2))
+
+    def setup(self, c, cfg):
+        from neuroglancer_scripts.downscaling import Downscaler
+        bad, other = cfg
+        nch = c.int("num_channels", inp=True)
+        c.assume(nch >= 1)
+        old_size = [c.int(f"old_size{i}", inp=True) for i in range(3)]
+        new_size = []
+        for i, s in enumerate(old_size):
+            c.assume(s >= 1)
+            ns = c.int(f"new_size{i}", inp=True)
+            c.assume(ns >= 1)
+            if i == bad:
+                c.assume(And(ns != s, 2 * ns != s, 2 * ns != s + 1))          # neither s nor ceil(s/2)
+            elif other == 1:
+                c.assume(ns == s)
+            else:
+                c.assume(And(Or(s == 2 * ns, s + 1 == 2 * ns), ns != s))
+            new_size.append(ns)
+        cs = [c.int(f"cs{i}", inp=True) for i in range(3)]
+        for v in cs:
+            c.assume(v >= 1)
+        self.info = {"type": "image", "data_type": "uint16", "num_channels": nch, "scales": [
+            {"key": "old", "size": old_size, "chunk_sizes": [[2 * v for v in cs]], "voxel_offset": [0, 0, 0], "encoding": "raw"},
+            {"key": "new", "size": new_size, "chunk_sizes": [cs], "voxel_offset": [0, 0, 0], "encoding": "raw"}]}
+        self.io = mk_io(c, self.info)
+        return (self.info, 0, SObj(Downscaler), self.io, self.io), {}
+
+    def bind(self, fn, args, kwargs):
+        return {}
+
+    def ensures(self, c, result):
+        yield ("an-unsupported-factor-is-never-accepted", False)
+
+    def check_raise(self, c, exc, b, cfg):
+        c.prove(f"refused-with-ValueError:{type(exc).__name__}", isinstance(exc, ValueError), kind="exc")
+        c.prove("nothing-written-before-the-refusal", len(self.io.ghost["written"]) == 0, kind="exc")
